@@ -635,7 +635,40 @@ def _astype(eng, st, a, dt):
 
 
 def filtered_comprehension(eng, st, fid, node, itv):
-    raise Unsupported("comprehension with a filter over a symbolic-length iterable")
+    """[elt for tgt in it if cond] over a symbolic-length iterable: the order-preserving selection
+    (same sel/rank functions as arr[mask] when cond is an element of a boolean array zipped in)"""
+    import ast as _ast
+    from .engine import _ZipV
+
+    g = node.generators[0]
+    if len(g.ifs) != 1:
+        raise Unsupported("comprehension with several filters over a symbolic-length iterable")
+    n, getter = eng.sym_iter(st, itv)
+    mask = None
+    cond = g.ifs[0]
+    if isinstance(cond, _ast.Name) and isinstance(itv, _ZipV) and isinstance(g.target, _ast.Tuple):
+        names = [t.id if isinstance(t, _ast.Name) else None for t in g.target.elts]
+        if cond.id in names:
+            part = eng.deref(st, itv.parts[names.index(cond.id)])
+            if is_arr(part) and part.dtype == "bool" and len(part.shape) == 1:
+                mask = part
+    snap = st
+
+    def with_target(i, expr):
+        sub = eng.new_frame(snap, parent=fid)
+        snap.ghost += 1
+        try:
+            eng.assign(g.target, getter(i), snap, sub)
+            return eng.deref(snap, eng.eval1(expr, snap, sub))
+        finally:
+            snap.ghost -= 1
+            del snap.frames[sub]
+
+    if mask is None:
+        mask = ArrV((n,), lambda ix: eng.truthy(snap, with_target(ix[0], cond)), "bool")
+    np_compress(eng, st, mask, mask)
+    m, sel, rank = mask._cinfo
+    return eng.alloc(st, ListV(n=m, fn=lambda i: with_target(Sym(sel(V.int_term(i)), "int"), node.elt)))
 
 
 # ----------------------------------------------------------------------------- install
